@@ -897,8 +897,8 @@ def inline_all(trees, skip=()):
         # a helper every call of which was written back into its caller is no longer part of the program the rules look at
         for h in list(inl.all_helpers()):
             name = h.node.name
-            if not h.ok:
-                continue
+            if not h.ok or not _is_private(name):
+                continue          # (a NEW public function is read as a helper where it is called, but it stays: it may be API)
             mangled = ('_%s%s' % (h.cls.name.lstrip('_'), name)) if (h.cls is not None and name.startswith('__')) else name
             refs = 0
             for n, t in trees.items():
